@@ -90,12 +90,7 @@ TermHolds(c, r) ==
     [] c = "OnlyDocumentedException" -> \/ r.exc \in {"none", "Hang", "SupportBudget"}
                                         \/ (r.exc = "AssertionError" /\ r.fn = "epa" /\ r.smooth)
     [] c = "OutputsFinite"           -> r.exc = "none" => r.finite
-(* named input pattern of a known finding (the same as for C07 / C20): EPA was started from a GJK simplex with fewer than four
-   valid rows (observed by the harness), builds its first polytope from uninitialised memory and overflows its face array *)
-TermFailing(r) ==
-  LET f == {c \in Range(TermClauses) : ~TermHolds(c, r)} IN
-  IF f = {"OnlyDocumentedException"} /\ r.fn = "epa" /\ r.exc = "AssertionError" /\ r.simplexRows < 4
-  THEN f \cup {"ZONE_IncompleteSimplex"} ELSE f
+TermFailing(r) == {c \in Range(TermClauses) : ~TermHolds(c, r)}
 
 (* ---------------- primitive distance functions (C10, C11): kind = "prim" ----------------
    one record per call of a function of distance3d.distance on lattice primitives (or their lifts):
@@ -176,9 +171,6 @@ PenFailing(r) ==
   LET f == {c \in Range(IF r.algo = "epa" THEN PenClausesEpa ELSE PenClausesMpr) : ~PenHolds(c, r)} IN
   IF f # {} /\ r.algo = "epa" /\ r.simplexRows < 4 /\ f \subseteq {"Minimal", "TouchAfterMTV", "SuccessOnPolytopes", "NoException"}
   THEN f \cup {"ZONE_IncompleteSimplex"}
-  ELSE IF f # {} /\ r.algo = "epa" /\ r.general /\ ~r.smooth /\ r.exc = "AssertionError" /\ r.simplexRows = 4
-            /\ f \subseteq {"NoException", "SuccessOnPolytopes"}
-       THEN f \cup {"ZONE_CapacityGeneral"}        \* fifth named pattern: polytope pair in general relative orientation, EPA's face capacity (64) overflows
   ELSE IF f = {"Minimal"} /\ r.algo = "epa" /\ r.exact
        THEN f \cup {"ZONE_SeparatingNotMinimal"}   \* fourth named pattern: the vector separates exactly (TouchAfterMTV holds) but is longer than the depth
   ELSE IF f # {} /\ r.algo = "mpr" /\ r.coincident /\ f \subseteq {"ContactInBoth"}
